@@ -237,6 +237,18 @@ func c12(run *core.Run, replay string) {
 			sh := []string{"raredom", "ramp255", "skewed", "smallalpha"}[r.Intn(4)]
 			cases = append(cases, &entCase{Codec: codec, Shape: sh, Size: sz, Seed: int64(r.Intn(1 << 30)), Prefix: 2 + r.Intn(12)})
 		}
+		// alphabets of exactly k symbols (header group boundaries of the static coders)
+		for ki, k := range []int{1, 2, 3, 5, 6, 7, 8, 9, 15, 16, 17, 31, 32, 33, 62, 63, 64, 65, 66, 127, 128, 129, 254, 255, 256} {
+			for _, sz := range []int{300, 600, 5000, 20000} {
+				if kz.Heavy(codec) && (sz > 5000 || ki%3 != 0) {
+					continue
+				}
+				if !run.Thorough() && (ki+sz/300)%2 == 1 && k != 64 && k != 63 && k != 65 {
+					continue
+				}
+				cases = append(cases, &entCase{Codec: codec, Shape: fmt.Sprintf("alpha:%d", k), Size: sz, Seed: run.Seed + int64(ki), Prefix: 2 + ki%12})
+			}
+		}
 		// back-to-back instances
 		for i, second := range kz.Entropies {
 			for _, sz := range []int{1, 64, 1500, 17000} {
